@@ -2,6 +2,7 @@ from shexer.core.shexing.strategy.minimal_iri_strategy.abstract_min_iri_strategy
 import re
 
 _SEP_CHARS = re.compile("[:/#]")
+_BARE_SCHEME = re.compile("[^:/#]+:/?/?")  # http:// , https:// , ftp:// , urn: ... nothing after the scheme
 
 
 class AnnotateMinIriStrategy(AbstractMinIriStrategy):
@@ -30,6 +31,6 @@ class AnnotateMinIriStrategy(AbstractMinIriStrategy):
         candidate_min_iri = backwards_str[last_sep_char.start():][::-1]
         if len(candidate_min_iri) < 3:  # Just too short. Kind of an arbitrary number
             return None
-        if candidate_min_iri.startswith("http") and len(candidate_min_iri) < 9:  # http:// or https:// + an extra char
+        if _BARE_SCHEME.fullmatch(candidate_min_iri):  # just a scheme (http://, https://, ftp://, urn:), no namespace
             return None
         return candidate_min_iri  # Let's say it is a worthy one
